@@ -404,12 +404,23 @@ Ref(s, x) == IF s.order = "ObjC" THEN Ref2(s.op, x, s.cv) ELSE Ref2(s.op, s.cv, 
 ---------------------------------------------------------------------------
 (* sites and operands *)
 ArithOps == {"Add", "Subtract", "Multiply", "Remainder", "TrueDivide", "FloorDivide", "Or", "Xor", "And"}
-FloatConsts == {Fin(1, 0, 0), Fin(-1, 0, 0), Fin(1, 1, 0), Fin(1, 1, 1), Fin(-1, 3, 1), Fin(1, 2, 0)}   \* 0.0 -0.0 1.0 0.5 -1.5 2.0
+BaseFloatConsts == {Fin(1, 0, 0), Fin(-1, 0, 0), Fin(1, 1, 0), Fin(1, 1, 1), Fin(-1, 3, 1), Fin(1, 2, 0)}   \* 0.0 -0.0 1.0 0.5 -1.5 2.0
+(* Boundary family of float constants: the integral doubles around every power of two at which a guard of the float    *)
+(* helpers (PyFloatBinop digit join / "fval < 2^MANT", Select's |c| <= 2^MANT, PyObjectCompare's 2^SHIFT magnitude     *)
+(* test) or the representation itself (digit count, spacing of doubles, width of long) switches - both signs.          *)
+(* Only values a float literal can denote (representable, finite) are constants.  Real instance: 2^30-1 .. 2^30+2,     *)
+(* 2^53-1, 2^53, 2^53+2, 2^54, 2^60, 2^63 and their negations.                                                         *)
+BndExps == {SHIFT, 2 * SHIFT, MANT, MANT + 1, LONG - 1}
+BndMags == UNION {{Pow2(e) - 1, Pow2(e), Pow2(e) + 1, Pow2(e) + 2} : e \in BndExps}
+Representable(m) == RoundFin(1, m, 0) = Fin(1, m, 0)
+BndFloatConsts == {Fin(s, m, 0) : s \in {1, -1}, m \in {mm \in BndMags : Representable(mm)}}
 FloatOps == {"Add", "Subtract", "Multiply", "TrueDivide", "Remainder", "FloorDivide", "Eq", "Ne", "And"}
+FloatHelperOps == {op \in FloatOps : Select(op, "CObj", "float", FloatV(Fin(1, 1, 0))) = "PyFloatBinop"}   \* + - / % == != : the ops of the digit-joining helper
 MkSite(op, order, ck, cv) == [op |-> op, order |-> order, ck |-> ck, cv |-> cv, family |-> Select(op, order, ck, cv)]
 Sites == {MkSite(op, order, "int", IntV(c)) : op \in ArithOps \cup Cmp, order \in {"ObjC", "CObj"}, c \in IntConsts}
          \cup {MkSite(op, "ObjC", "int", IntV(c)) : op \in {"Rshift", "Lshift"}, c \in ShiftCounts}
-         \cup {MkSite(op, order, "float", FloatV(f)) : op \in FloatOps, order \in {"ObjC", "CObj"}, f \in FloatConsts}
+         \cup {MkSite(op, order, "float", FloatV(f)) : op \in FloatOps, order \in {"ObjC", "CObj"}, f \in BaseFloatConsts}
+         \cup {MkSite(op, order, "float", FloatV(f)) : op \in FloatHelperOps, order \in {"ObjC", "CObj"}, f \in BndFloatConsts}
 
 B == XMAX
 NInt == 2 * B + 1
@@ -434,6 +445,12 @@ Init == site \in Sites /\ chunk \in 0..NChunks /\ cells = Cells(site, chunk)
 Next == UNCHANGED vars
 Spec == Init /\ [][Next]_vars
 
+(* case class "rounding collision": an int operand that is NOT equal to the float constant of the site but whose      *)
+(* conversion to double IS (2^MANT + 1 against 2.0^MANT, ties-to-even).  Python compares int and float exactly; any  *)
+(* helper that converts first and compares doubles answers True here.  For arithmetic the class is harmless (CPython *)
+(* converts as well), Agree decides those cells.                                                                     *)
+RoundCollision(s, x) == s.ck = "float" /\ x.k = "int" /\ s.cv.f.t = "fin" /\ ~CmpExactEq(x.v, s.cv.f) /\ FEq(IntToFloat(x.v), s.cv.f)
+NCollisions == Cardinality({i \in DOMAIN cells : RoundCollision(site, cells[i].x)})
 HazardKey(c) == site.family \o "/" \o c.path
 IsHazard(c) == c.fast # "g" /\ c.fast # c.ref
 (* the transcribed helper computes the reference result, or hands over to the generic protocol *)
@@ -447,9 +464,12 @@ TypeGuard == \A i \in DOMAIN cells : (cells[i].x.k = "other" \/ site.family = "g
 (* bools (int subclass) are left to the generic protocol or to CPython's own slots *)
 BoolGuard == \A i \in DOMAIN cells : cells[i].x.k = "bool" => (cells[i].fast = "g" \/ cells[i].path \in {"nb-xfloat-slot", "nb-reverse"})
 
+(* int == float / int != float is exact: a colliding operand is unequal (or the decision is left to CPython) *)
+ExactCompare == \A i \in DOMAIN cells : (site.op \in Cmp /\ RoundCollision(site, cells[i].x)) => cells[i].fast \in {"g", EqR(site.op, FALSE)}
+
 Publish == Dump => PrintT("@@" \o ToJson([op |-> site.op, order |-> site.order, ck |-> site.ck,
                                           c |-> IF site.ck = "int" THEN FmtI(site.cv.v) ELSE FmtF(site.cv.f),
-                                          family |-> site.family, chunk |-> chunk,
+                                          family |-> site.family, chunk |-> chunk, coll |-> NCollisions,
                                           ref |-> [i \in DOMAIN cells |-> cells[i].ref],
                                           fast |-> [i \in DOMAIN cells |-> IF cells[i].fast = cells[i].ref THEN "=" ELSE cells[i].fast],
                                           path |-> [i \in DOMAIN cells |-> cells[i].path]]))
